@@ -72,7 +72,8 @@ Definition pop (r : ptr) : M ptr :=
      x <- get_next r ;; set_next rprev x ;;;     (* rprev.next = r.next *)
      y <- get_prev r ;; set_prev rnext y ;;;     (* rnext.prev = r.prev *)
      set_prev r r ;;;
-     set_next r r
+     set_next r r ;;;
+     ret tt
    else ret tt) ;;;
   ret r.
 
